@@ -1,4 +1,6 @@
 """C20 - a shared Licensing is safe to use from several threads, first use included."""
+import os
+
 import impl
 import sched
 from core import BaseProp, Verdict
@@ -9,7 +11,8 @@ RULE = ('real threads under a deterministic line-granularity scheduler (sys.sett
         'plus sampled pairs of preemptions); while A is suspended '
         'thread B parses on the same Licensing to completion and thread C constructs another Licensing and parses; then A resumes. '
         'The subsequent parse: on a Licensing that has already parsed one text, A parses another text (or the same) and is preempted '
-        'before every k-th line while B parses the previous (or another) text. '
+        'before every k-th line while B parses the previous (or another) text. Construction meanwhile: A is preempted before every k-th '
+        'line of its first parse while another thread constructs a Licensing over 1200 keys never seen before. '
         'Spec: every result equals the result of the call run alone. Correspondence: the sequence of protocol steps the threads '
         'took (read shared / allocate / add / make_automaton / publish / use) is replayed on the Lean protocol model and the '
         'tokenizer each thread used (entries, finalised) must be the one the model says. non-trivial = the preemption falls inside '
@@ -80,7 +83,44 @@ class Prop(BaseProp):
                 return Verdict('diverge', case, 'protocol trace (thread %d, %s)' % (i, scn), impl=[obs, [m for t, m in abstract if t == i][:12]], model=pcs[i], tags=tags)
         return Verdict('ok', case, impl=got[0], nontrivial=True, tags=tags)
 
+    def eval_heavy(self, drv, case, solo_cache={}, counter=[0]):
+        """while other threads construct further Licensing objects: A makes the first parse on a fresh shared Licensing and is
+        preempted before its k-th line; meanwhile C constructs a Licensing over a large table of keys never seen before
+        (and parses with it); then A resumes."""
+        ti, ks = case['table'], case['ks']
+        table, text = TABLES[ti]
+        if (ti, text) not in solo_cache:
+            solo_cache[(ti, text)] = self.solo(table, text)
+        want = solo_cache[(ti, text)][1]
+        counter[0] += 1
+        big = ['zz-%d-%d-%d' % (os.getpid(), counter[0], i) for i in range(case.get('size', 1200))]
+        L = le.Licensing(impl.table_objs(table))
+        k0 = ks[0]
+
+        def fc():
+            return le.Licensing(big).parse('%s or %s' % (big[0], big[-1]))
+
+        def sf(i, runnable, steps):
+            if 't0' in runnable and steps['t0'] < k0:
+                return ('t0', k0 - steps['t0'])
+            if 't1' in runnable:
+                return ('t1', BIG)
+            return ('t0', BIG)
+        try:
+            ts, abstract = sched.run([lambda: L.parse(text), fc], sf)
+        except RuntimeError as e:
+            return Verdict('spec', case, str(e))
+        got = canon(ts[0].result)
+        if got != want:
+            return Verdict('spec', case, 'a call returns something else than when run alone (another thread constructed a large Licensing meanwhile)',
+                           impl=got, model=want, tags=['heavy'])
+        if ts[1].result[0] != 'ok':
+            return Verdict('spec', case, 'the constructing thread failed', impl=list(ts[1].result)[:3], tags=['heavy'])
+        return Verdict('ok', case, impl=got, nontrivial=True, tags=['heavy'])
+
     def eval_case(self, drv, case, solo_cache={}):
+        if case.get('scn', 'first') == 'heavy':
+            return self.eval_heavy(drv, case)
         if case.get('scn', 'first') != 'first':
             return self.eval_warm(drv, case)
         ti, ks = case['table'], case['ks']
@@ -151,6 +191,8 @@ class Prop(BaseProp):
                 n2 = self.solo(table, tx)[0]
                 for k in range(0, n2 + 1):
                     cases.append({'table': ti, 'ks': [k], 'scn': scn})
+            for k in range(0, nsteps + 1):
+                cases.append({'table': ti, 'ks': [k], 'scn': 'heavy'})
             if tier == 'thorough':
                 for _ in range(1500):
                     cases.append({'table': ti, 'ks': [rng.randint(0, nsteps), rng.randint(0, nsteps)]})
